@@ -183,6 +183,11 @@ func propose(r *sim.Rand, ids *idAlloc, av []avail, x avail, o *genOpts) []sim.S
 	class := classes[r.Intn(len(classes))]
 	st := sim.Step{C: o.Client, In: []int{x.ID}}
 	partner := func(shape []int, pred func([]int) bool) (int, []sim.Step) {
+		if r.Bool(0.1) && pred(x.Shape) {
+			// the same object in two roles of one call (x op x, x twice in a Concat
+			// list, x patched into itself)
+			return x.ID, nil
+		}
 		if !r.Bool(o.PSynth) {
 			if a, ok := pickWhere(r, av, pred); ok {
 				return a.ID, nil
